@@ -50,6 +50,10 @@ Definition is_public (m : string) : bool :=
   | EmptyString => false
   end.
 
+(* callable by code outside the four classes: clients (public methods) and
+   the package's other modules (the private names they are seen to use) *)
+Definition outside_callable (ent : entry) : bool := is_public (e_name ent) || e_ext ent.
+
 (* what a finished callee leaves in its caller *)
 Definition after_call (e : env) (x : var) (s : status) : env * status :=
   match s with
@@ -88,7 +92,7 @@ Inductive exec (T : list entry) : stmt -> env -> heap -> env -> heap -> status -
     exec T (e_body ent) (env0 (e y)) h e1 h1 s1 ->
     exec T (SCall x m y) e h (fst (after_call e x s1)) h1 (snd (after_call e x s1))
 | E_Ext : forall x ent recv v e h e1 h1 s1 s,
-    In ent T -> is_public (e_name ent) = true -> valid h recv ->
+    In ent T -> outside_callable ent = true -> valid h recv ->
     exec T (e_body ent) (env0 recv) h e1 h1 s1 ->
     valid h1 v -> s = Running \/ s = Aborted ->
     exec T (SExt x) e h (upd e x v) h1 s
@@ -170,7 +174,7 @@ Definition tc_entry (Sm : summaries) (ent : entry) (G : list aval) : bool :=
   | None => false
   | Some (rt, mu) =>
     tc G mu rt Sm (e_body ent) && aleb ASelfOrFresh (aget G 0) &&
-    (negb (is_public (e_name ent)) || negb mu)
+    (negb (outside_callable ent) || negb mu)
   end.
 
 Fixpoint forallb2 {A B} (f : A -> B -> bool) (l : list A) (m : list B) : bool :=
